@@ -4,7 +4,7 @@
 # then run  VERIF_REPO=$WT bin/check C03  — every one of them must end in a VIOLATION line.
 # names: none drain-skipped drain-skipped-conn-only drain-skipped-handler-only copy-from-bufreader closewrite-to-close
 #        closewrite-omitted one-direction-only reply-reader-buffered reply-reader-4k grace-10ms drain-twice
-#        drain-one-byte-short no-reflect-closewriter
+#        drain-one-byte-short no-reflect-closewriter shared-copy-buffer
 set -e
 WT="${WT:?set WT to a scratch worktree: git -C /repo worktree add --detach <dir>}"
 export WT
@@ -88,6 +88,37 @@ import os
 p=os.environ['WT']+'/internal/martian/close.go'
 s=open(p).read()
 s=s.replace("	return reflectx.LookupImpl[closeWriter](reflect.ValueOf(w))","	_ = reflect.ValueOf\n	_ = reflectx.LookupImpl[closeWriter]\n	return nil, false")
+open(p,'w').write(s)
+PY
+ ;;
+ shared-copy-buffer)
+   # one pooled buffer per tunnel instead of one per direction: shows only when neither leg has a
+   # ReadFrom/WriteTo fast path (tls-* / rl-* modes) and both directions carry data at once
+   python3 - <<'PY'
+import os
+p=os.environ['WT']+'/internal/martian/copy.go'
+s=open(p).read()
+old="""	donec := make(chan struct{}, len(cc))
+	for i := range cc {
+		go cc[i].copy(ctx, donec)
+	}
+"""
+assert old in s
+s=s.replace(old,"""	bufp := copyBufPool.Get().(*[]byte)
+	defer copyBufPool.Put(bufp)
+	donec := make(chan struct{}, len(cc))
+	for i := range cc {
+		go cc[i].copy(ctx, *bufp, donec)
+	}
+""")
+old="""func (c copier) copy(ctx context.Context, donec chan<- struct{}) {
+	bufp := copyBufPool.Get().(*[]byte) //nolint:forcetypeassert // It's *[]byte.
+	buf := *bufp
+	defer copyBufPool.Put(bufp)
+"""
+assert old in s
+s=s.replace(old,"""func (c copier) copy(ctx context.Context, buf []byte, donec chan<- struct{}) {
+""")
 open(p,'w').write(s)
 PY
  ;;
